@@ -180,7 +180,8 @@ def build(term, sp='class'):
         return r
     if o == 'Backreference':
         a = term[1]
-        return gr.Backreference(a[1] if a[0] in ('i', 'name') else name(a) if a[0] != 'bool' else True)
+        # 'badtype' of a group name is the int 5 - a valid numeric reference here: use a float for a wrongly typed reference
+        return gr.Backreference(a[1] if a[0] in ('i', 'name') else True if a[0] == 'bool' else 1.5 if a[0] == 'badtype' else name(a))
     if o == 'Conditional':
         nm = name(term[1])
         if len(term) == 3:
